@@ -52,3 +52,11 @@ package placement
 //@   mode nopanic=off
 //@   at[filter] call placement.Filter.allowUser#1 after: assume ret <==> fadmit(app)
 //@   ensures[admitted] q != "" ==> fadmit(app) && err == nil
+
+// a filter that was configured with any user or group entry is never treated as "no filter", whether or not its entries
+// are usable
+//@ func newFilter(conf configs.Filter) (f Filter)
+//@   props C17
+//@   sweep
+//@   mode nopanic=off
+//@   ensures[configured] len(conf.Users) > 0 || len(conf.Groups) > 0 ==> !f.empty
